@@ -144,8 +144,15 @@ def fmtOutDocs : Out (List Doc) → String
 def fmtEnd : End → String
   | .eof => "eof" | .wrongCount => "wrongcount" | .recvErr => "recverr"
 
-def step (line : String) : String :=
-  match fields line with
+/-- an optional last field `ca=<k>`: the request context is done after `k` calls of the document iterator -/
+def splitCancel (fs : List String) : List String × Option Nat :=
+  match fs.reverse with
+  | last :: rest =>
+    if last.startsWith "ca=" then (rest.reverse, (last.drop 3).toNat?) else (fs, none)
+  | [] => (fs, none)
+
+def stepC (fs : List String) (ca : Option Nat) : String :=
+  match fs with
   | ["shard", calls] =>
     match parseCalls calls with
     | some cs => fmtShard (searchShard cs)
@@ -194,7 +201,7 @@ def step (line : String) : String :=
     match parseArrival hot, parseArrival cold, off.toNat?, sz.toNat?, bool? rev, bool? src, hint.toNat?, bool? fetch,
       natList? order, parseBehav behav with
     | some h, some c, some off, some sz, some rev, some src, some hint, some fetch, some order, some b =>
-      match searchAndFetch h c off sz rev hint fetch order (behavFn b) with
+      match searchAndFetchC h c off sz rev hint fetch order (behavFn b) ca with
       | .err k => s!"err {fmtKind k}"
       | .panic => "panic"
       | .fetchErr => "err allfailed"
@@ -205,7 +212,7 @@ def step (line : String) : String :=
     match parseArrival hot, parseArrival cold, off.toNat?, sz.toNat?, bool? rev, hint.toNat?,
       natList? order, parseBehav behav with
     | some h, some c, some off, some sz, some rev, some hint, some order, some b =>
-      match api (searchAndFetch h c off sz rev hint true order (behavFn b)) with
+      match api (searchAndFetchC h c off sz rev hint true order (behavFn b) ca) with
       | .status ia => if ia then "err invalid-argument" else "err internal"
       | .refused => "ok refused tmf"
       | .panic => "panic"
@@ -225,7 +232,7 @@ def step (line : String) : String :=
     match parseArrival hot, parseArrival cold, off.toNat?, sz.toNat?, bool? rev, hint.toNat?,
       natList? order, parseBehav behav with
     | some h, some c, some off, some sz, some rev, some hint, some order, some b =>
-      match api (searchAndFetch h c off sz rev hint true order (behavFn b)) with
+      match api (searchAndFetchC h c off sz rev hint true order (behavFn b) ca) with
       | .status ia => if ia then "err invalid-argument" else "err internal"
       | .refused => "ok refused tmf"
       | .panic => "err internal"
@@ -240,5 +247,9 @@ def step (line : String) : String :=
       | .docs l => "ok " ++ fmtList (fun (d : ProxySearch.ID × Nat) => s!"{fmtID d.1}={d.2}") l
     | _, _, _, _ => "bad-op"
   | _ => "bad-op"
+
+def step (line : String) : String :=
+  let p := splitCancel (fields line)
+  stepC p.1 p.2
 
 def main : IO Unit := SV.Proto.main step
